@@ -25,3 +25,25 @@ Theorem C10_chunk_records_start_below_limit :
       nth_error (chunks slot slen mx l cur) f = Some file -> at_pos slot slen file 0 lp = Some x -> lp < mx.
 Proof. exact chunks_starts. Qed.
 Print Assumptions C10_chunk_records_start_below_limit.
+
+(* "Entries whose primary data no longer exists are dropped rather than mis-pointed": an old offset at or beyond the end of the old
+   log is not remapped at all ... *)
+Theorem C10_dangling_offset_is_dropped :
+  forall (slot : Type) (slen : slot -> N) (mx : N) (l cur : list slot) (p : N),
+    total slot slen (cur ++ l) <= p -> remap (map (total slot slen) (chunks slot slen mx l cur)) 0 p = None.
+Proof. exact dangling_offset_is_dropped. Qed.
+Print Assumptions C10_dangling_offset_is_dropped.
+
+(* ... every offset inside the old log is remapped to some (file, local offset) - no entry with data is lost ... *)
+Theorem C10_offset_inside_is_remapped :
+  forall (slot : Type) (slen : slot -> N) (mx : N) (l cur : list slot) (p : N),
+    p < total slot slen (cur ++ l) -> exists f lp, remap (map (total slot slen) (chunks slot slen mx l cur)) 0 p = Some (f, lp).
+Proof. exact offset_inside_is_remapped. Qed.
+Print Assumptions C10_offset_inside_is_remapped.
+
+(* ... and the absolute offset the remapped entry stores (file * limit + local offset, local offset below the limit by
+   C10_chunk_records_start_below_limit) decodes back to that file and that local offset (localizePrimaryPos). *)
+Theorem C10_absolute_offset_decodes :
+  forall mx f lp : N, 0 < mx -> lp < mx -> (f * mx + lp) / mx = f /\ (f * mx + lp) mod mx = lp.
+Proof. exact absolute_offset_decodes. Qed.
+Print Assumptions C10_absolute_offset_decodes.
